@@ -150,6 +150,11 @@ def load_theory_cache(filename, username="master"):
 
     # Load all required macros and methods for this file.
     # Make table for this later.
+    # Importing these modules can load theories as a side effect (they call
+    # load_theory at module level), which replaces theory.thy. This function
+    # may be running inside a caller's fresh_theory() block, so the theory
+    # that the caller is building must be put back.
+    saved_thy = theory.thy
     if filename == 'logic':
         from prover import z3wrapper
     if filename == 'expr':
@@ -158,6 +163,7 @@ def load_theory_cache(filename, username="master"):
         from data import real
     if filename == 'hoare':
         from imperative import imp
+    theory.thy = saved_thy
 
     # Load all imported theories
     depend_list = get_import_order(cache['imports'], username)
